@@ -268,7 +268,13 @@ func visitInstr(fr *frame, instr ssa.Instruction) continuation {
 		chanSend(fr, fr.get(instr.Chan), fr.get(instr.X))
 
 	case *ssa.Store:
-		store(mustDeref(instr.Addr.Type()), derefCheck(fr.get(instr.Addr)), fr.get(instr.Val))
+		addr := derefCheck(fr.get(instr.Addr))
+		if fr.i.watched != nil {
+			if name, ok := fr.i.watched[addr]; ok {
+				fr.i.noteCellAccess(fr, addr, name, true)
+			}
+		}
+		store(mustDeref(instr.Addr.Type()), addr, fr.get(instr.Val))
 
 	case *ssa.If:
 		succ := 1
@@ -345,7 +351,11 @@ func visitInstr(fr *frame, instr ssa.Instruction) continuation {
 
 	case *ssa.FieldAddr:
 		a := derefCheck(fr.get(instr.X))
-		fr.env[instr] = &(*a).(structure)[instr.Field]
+		cell := &(*a).(structure)[instr.Field]
+		fr.env[instr] = cell
+		if fr.i.opts.RaceMonitor {
+			fr.i.watchField(instr, a, cell)
+		}
 
 	case *ssa.Field:
 		fr.env[instr] = fr.get(instr.X).(structure)[instr.Field]
